@@ -124,6 +124,19 @@ fn selftest() -> i32 {
         eprintln!("selftest: json round trip broken");
         return 2;
     }
+    // reading SLI entries from their Debug rendering: by name, in any order, else by position
+    for (txt, want) in [
+        ("MacroBlockEntry { start: 1, count: 2, picture_id: 3 }", Some((1u16, 2u16, 3u8))),
+        ("MacroBlockEntry { picture_id: 3, start: 1, count: 2 }", Some((1, 2, 3))),
+        ("MacroBlockEntry {\n    first_mb: 0x1fff,\n    number: 8191,\n    pic: 63,\n}", Some((0x1fff, 8191, 63))),
+        ("Entry(7, 8, 9)", Some((7, 8, 9))),
+        ("Entry(123456)", None),
+    ] {
+        if subject::observe::sli_from_debug(txt) != want {
+            eprintln!("selftest: SLI Debug reader fails on {:?}", txt);
+            return 2;
+        }
+    }
     match refmodel::selfcheck() {
         Ok(n) => println!("selftest: reference encoder reproduces {} suite vectors", n),
         Err(m) => {
